@@ -37,6 +37,8 @@ CONSTANTS
                       \*      the function object of the base
   SwLateInvAppendsToBase, \* F26: @invariant on a class created through the metaclass BEFORE its base got invariants appends
                       \*      to the lists found on the base
+  SwDiamondDuplicates, \* F27: a contract that reaches a class through several bases (a diamond) is collected once per path:
+                      \*      listed and evaluated repeatedly; a snapshot conflicts with itself and the class is rejected
   SwShadow            \* F18b: a wrapper bound in a class dictionary shadows, for subclasses with several bases,
                       \*       definitions that come later in the method resolution order
 
@@ -59,6 +61,12 @@ Max(S) == CHOOSE x \in S : \A y \in S : y <= x
 RangeS(s) == {s[i] : i \in DOMAIN s}
 
 NoMember == [kind |-> "none", f |-> 0, rb |-> FALSE]
+
+\* first occurrences only (contracts are compared by identity = by their ordinal)
+RECURSIVE Dedup(_)
+Dedup(seq) == IF seq = <<>> THEN <<>>
+              ELSE LET rest == Dedup(SubSeq(seq, 1, Len(seq) - 1)) last == seq[Len(seq)] IN
+                   IF \E i \in DOMAIN rest : rest[i] = last THEN rest ELSE Append(rest, last)
 
 \* ---- heaps -----------------------------------------------------------------
 NewList(heap, elems) == Append(heap, elems)            \* the new object's id is Len(heap) + 1
@@ -187,8 +195,9 @@ Members ==
 RECURSIVE BaseInvs(_, _, _, _)
 BaseInvs(ch, lh, bases, which) ==
   IF bases = <<>> THEN <<>>
-  ELSE LET l == InvListOf(ch, Head(bases), which) IN
-       (IF l = 0 THEN <<>> ELSE lh[l]) \o BaseInvs(ch, lh, Tail(bases), which)
+  ELSE LET l == InvListOf(ch, Head(bases), which)
+           all == (IF l = 0 THEN <<>> ELSE lh[l]) \o BaseInvs(ch, lh, Tail(bases), which)
+       IN IF SwDiamondDuplicates THEN all ELSE Dedup(all)
 AnyBaseHas(ch, bases, which) == \E i \in DOMAIN bases : InvListOf(ch, bases[i], which) # 0
 
 \* contracts of the bases for member `name` (function or property accessor): in base order
@@ -197,10 +206,17 @@ BaseLists(ch, fh, lh, bases, name, acc) ==
   IF bases = <<>> THEN acc
   ELSE LET mem == Lookup(ch, Head(bases), name)
            c   == IF mem.kind = "none" THEN 0 ELSE FindChecker(fh, mem.f, 0)
+           \* the same contracts can arrive through several bases (diamond): collected once (unless SwDiamondDuplicates);
+           \* groups are the same if they list the very same contracts
+           newPre == IF c = 0 THEN <<>>
+                     ELSE IF SwDiamondDuplicates THEN lh[fh[c].pre]
+                     ELSE SelectSeq(lh[fh[c].pre], LAMBDA g : ~\E i \in DOMAIN acc.pre : lh[acc.pre[i]] = lh[g])
            acc1 == [has  |-> acc.has \/ mem.kind # "none",
-                    pre  |-> IF c = 0 THEN acc.pre ELSE acc.pre \o lh[fh[c].pre],
-                    snap |-> IF c = 0 THEN acc.snap ELSE acc.snap \o lh[fh[c].snap],
-                    post |-> IF c = 0 THEN acc.post ELSE acc.post \o lh[fh[c].post],
+                    pre  |-> acc.pre \o newPre,
+                    snap |-> IF c = 0 THEN acc.snap
+                             ELSE IF SwDiamondDuplicates THEN acc.snap \o lh[fh[c].snap] ELSE Dedup(acc.snap \o lh[fh[c].snap]),
+                    post |-> IF c = 0 THEN acc.post
+                             ELSE IF SwDiamondDuplicates THEN acc.post \o lh[fh[c].post] ELSE Dedup(acc.post \o lh[fh[c].post]),
                     free |-> acc.free \/ (mem.kind # "none" /\ (c = 0 \/ lh[fh[c].pre] = <<>>))]
        IN BaseLists(ch, fh, lh, Tail(bases), name, acc1)
 
